@@ -96,6 +96,7 @@ func (pr *ActiveTestResp) IDecode(data []byte) error {
 
 	pr.Header = smgp.ReadHeader(buf)
 	// SMGP 3.0.3 defines Active_Test_Resp without a body: accept the 12-octet form as well
+	pr.Reserved = 0 // (a value decoded into before must not keep the earlier frame's octet)
 	if buf.Remaining() > 0 {
 		pr.Reserved = buf.ReadUint8()
 	}
